@@ -68,6 +68,9 @@ type rateFlag struct{ *vegeta.Rate }
 
 func (f *rateFlag) Set(v string) (err error) {
 	if v == "infinity" {
+		// Same as 0: an unlimited rate. Leaving the value untouched kept the
+		// default of 50/s in force.
+		f.Freq = 0
 		return nil
 	}
 
